@@ -113,6 +113,8 @@ pub const LEAF_NAMES: usize = 8;
 pub fn install() -> World {
     let g = engine_handler("gf".into());
     expression_engine::register_function("gf", g);
+    // a global function shadowed by the context function of the same name: never called
+    expression_engine::register_function("cf", engine_handler("cf-global-shadowed".into()));
     let h = engine_handler("lg".into());
     expression_engine::register_prefix_op("lg", Arc::new(move |v| h(vec![v])));
     let h = engine_handler("lpo".into());
@@ -129,6 +131,7 @@ pub fn install() -> World {
     ops.infix.insert("lset".into(), InfixInfo { prec: 20, left: false, setter: true });
     w.ops = ops;
     w.functions.insert("gf".into(), model_handler("gf".into()));
+    w.functions.insert("cf".into(), model_handler("cf-global-shadowed".into()));
     w.prefix.insert("lg".into(), model_handler("lg".into()));
     w.postfix.insert("lpo".into(), model_handler("lpo".into()));
     w.infix.insert("lop".into(), model_handler("lop".into()));
@@ -175,6 +178,8 @@ pub fn kinds() -> Vec<Kind> {
         Kind::Infix("lset".into()),
         Kind::Prefix("-".into()),
         Kind::Prefix("lg".into()),
+        Kind::Prefix("AND".into()),
+        Kind::Prefix("OR".into()),
         Kind::Postfix("++".into()),
         Kind::Postfix("lpo".into()),
         Kind::Ternary,
@@ -183,6 +188,7 @@ pub fn kinds() -> Vec<Kind> {
         // three arguments = a call of a function that exists nowhere
         Kind::Call(3),
         Kind::List(2),
+        Kind::List(3),
         Kind::Map(1),
         Kind::Map(2),
     ]
@@ -228,6 +234,14 @@ fn relabel_effects(t: &Ast, style: &str, next: &mut usize, cond: bool) -> Ast {
                     }
                 }
             }
+        }
+        Ast::Unary(op, x) if (op == "AND" || op == "OR") && matches!(**x, Ast::List(_)) => {
+            // the elements of an aggregated list literal are boolean positions
+            let inner = match &**x {
+                Ast::List(v) => Ast::List(v.iter().map(|e| go(e, next, true)).collect()),
+                _ => unreachable!(),
+            };
+            Ast::Unary(op.clone(), Box::new(inner))
         }
         Ast::Unary(op, x) => Ast::Unary(op.clone(), Box::new(go(x, next, false))),
         Ast::Postfix(x, op) => Ast::Postfix(Box::new(go(x, next, false)), op.clone()),
@@ -298,17 +312,22 @@ impl Programs {
             let by4 = trees_by_size(&reduced_kinds(), 4);
             trees.extend(by4[4].iter().cloned());
         }
-        // statement chains: every ordered pair of one-node trees
+        // statement chains: every ordered pair of zero- and one-node trees (a bare name is a
+        // statement too), and triples around a bare leaf
         let mut chains = Vec::new();
-        for a in &by[1] {
-            for b in &by[1] {
-                chains.push(Ast::Stmt(vec![a.clone(), b.clone()]));
+        let small: Vec<&Ast> = by[0].iter().chain(by[1].iter()).collect();
+        for a in &small {
+            for b in &small {
+                chains.push(Ast::Stmt(vec![(*a).clone(), (*b).clone()]));
             }
+        }
+        for a in &by[1] {
+            chains.push(Ast::Stmt(vec![by[0][0].clone(), a.clone(), by[0][0].clone(), by[0][0].clone()]));
         }
         Programs { trees, chains }
     }
     pub fn len(&self) -> u64 {
-        (self.trees.len() * STYLES.len() + self.chains.len()) as u64
+        (self.trees.len() * STYLES.len() + 2 * self.chains.len()) as u64
     }
     pub fn get(&self, i: u64) -> Ast {
         let i = i as usize;
@@ -317,7 +336,7 @@ impl Programs {
         if i < n {
             relabel_effects(&self.trees[i / STYLES.len()], STYLES[i % STYLES.len()], &mut next, false)
         } else {
-            relabel_effects(&self.chains[i - n], "mixed-true", &mut next, false)
+            relabel_effects(&self.chains[(i - n) / 2], if (i - n) % 2 == 0 { "mixed-true" } else { "bare" }, &mut next, false)
         }
     }
 }
